@@ -22,6 +22,7 @@ import (
 	"verif/harness/gen"
 	"verif/harness/hx"
 	"verif/harness/lib"
+	"verif/harness/peers"
 	"verif/harness/refipfix"
 	"verif/harness/regtable"
 )
@@ -66,6 +67,14 @@ func main() {
 			c.Journal(k, map[string]any{"kind": "blocked-sender", "domain": domain})
 			c.Eval(1)
 			c.Guard(k, "exporter", nil, func() { blockedSenderSession(c, k, r, domain) })
+			continue
+		}
+		if k%16 == 13 {
+			// the collector is restarted in the middle of a plain-UDP session: the kernel reports the port
+			// unreachable on a later send. Whatever the library does about it, every SendSet that SUCCEEDS counts
+			c.Journal(k, map[string]any{"kind": "udp-peer-restart", "v6": v6, "domain": domain})
+			c.Eval(1)
+			c.Guard(k, "exporter", nil, func() { restartSession(c, k, r, v6, domain, small) })
 			continue
 		}
 		wrap := r.IntN(3) == 0
@@ -459,4 +468,110 @@ func refreshSession(c *hx.Ctx, k int, r *rand.Rand, v6 bool, domain uint32, smal
 	if refresh > 0 {
 		c.Nontrivial(hx.H64("refresh", k, len(nrecs), refresh))
 	}
+}
+
+// restartSession: a plain-UDP session during which the peer socket is closed and later bound again on the same
+// port (a collector restart). Sends towards the closed port succeed or fail as the kernel reports the ICMP error;
+// a session with a failed SendSet is outside C08's statement from that call on and is only counted. While every call
+// succeeds, each message that reaches the new peer must carry the count of data records of ALL successful calls.
+func restartSession(c *hx.Ctx, k int, r *rand.Rand, v6 bool, domain uint32, small []regtable.Elem) {
+	s, err := lib.NewExpSession("udp", v6, domain, 600, 0)
+	if err != nil {
+		c.Inconclusive("session: " + err.Error())
+		return
+	}
+	defer s.Close()
+	start := uint32(0)
+	if r.IntN(2) == 0 {
+		start = uint32(0x100000000 - uint64(1+r.IntN(40)))
+		s.EP.VerifSetSeqNumber(start)
+	}
+	cnt := start
+	elems := gen.Template(r, small, 1+r.IntN(4))
+	tid := s.EP.NewTemplateID()
+	tset, err := lib.TemplateSet(tid, elems, r.IntN(4))
+	if err != nil {
+		c.Violation(k, "templateset-error", err.Error(), nil)
+		return
+	}
+	if _, err := s.EP.SendSet(tset); err != nil {
+		c.Violation(k, "send-error", err.Error(), nil)
+		return
+	}
+	if _, ok := s.UDP.TakeOne(wait); !ok {
+		c.Inconclusive(fmt.Sprintf("restart session %d: template did not arrive", k))
+		return
+	}
+	// sendData returns (sent ok, arrived message or nil)
+	sendData := func(phase string, expectArrival bool) (bool, bool) {
+		recs := gen.Records(r, elems, 1+r.IntN(9), 4000)
+		set := entities.NewSet(false)
+		if err := lib.FillDataSet(set, tid, elems, recs, r); err != nil {
+			c.Violation(k, "dataset-error", err.Error(), nil)
+			return false, false
+		}
+		if _, err := s.EP.SendSet(set); err != nil {
+			c.Add("restart_sessions_ended_by_a_failed_send:"+phase, 1)
+			return false, true
+		}
+		cnt += uint32(len(recs))
+		if !expectArrival {
+			return true, true
+		}
+		raw, ok := s.UDP.TakeOne(wait)
+		if !ok {
+			c.Inconclusive(fmt.Sprintf("restart session %d: a datagram sent after the restart did not arrive", k))
+			return false, true
+		}
+		m, err := refipfix.ParseMessage(raw)
+		if err != nil {
+			c.Violation(k, "malformed", fmt.Sprintf("after the peer restart: %v", err), nil)
+			return false, false
+		}
+		if m.Seq != cnt {
+			c.Violation(k, "seq:D", fmt.Sprintf("UDP session whose collector was restarted: every SendSet call succeeded; the data message after the restart carries sequence number %d, the successful calls up to and including it carried %d data records (start %d)", m.Seq, cnt-start, start), nil)
+			return false, false
+		}
+		if m.Domain != domain {
+			c.Violation(k, "domain", fmt.Sprintf("observation domain %d, configured %d", m.Domain, domain), nil)
+			return false, false
+		}
+		c.Add("messages_judged_after_a_peer_restart", 1)
+		return true, true
+	}
+	for i := 0; i < r.IntN(3); i++ {
+		if ok, _ := sendData("before", true); !ok {
+			return
+		}
+	}
+	addr := s.UDP.Addr()
+	s.UDP.Close()
+	down := 1 + r.IntN(2)
+	for i := 0; i < down; i++ {
+		ok, cont := sendData("peer-down", false)
+		if !cont {
+			return
+		}
+		time.Sleep(15 * time.Millisecond) // the ICMP port-unreachable comes back
+		if !ok {
+			c.Add("restart_sessions", 1)
+			return
+		}
+	}
+	np, err := peers.NewUDPPeer("udp", addr)
+	if err != nil {
+		c.Inconclusive("restart session: the port could not be bound again: " + err.Error())
+		return
+	}
+	s.UDP = np
+	for i := 0; i < 2+r.IntN(3); i++ {
+		ok, _ := sendData("after", true)
+		if !ok {
+			c.Add("restart_sessions", 1)
+			return
+		}
+	}
+	c.Add("restart_sessions", 1)
+	c.Add("restart_sessions_without_a_failed_send", 1)
+	c.Nontrivial(hx.H64("restart", k, down, cnt))
 }
